@@ -2,7 +2,7 @@ SPECIFICATION Spec
 CONSTANTS
   Names <- NamesT
   LitPool <- LitsFull
-  ActKinds = {"Define", "DefineFromVar", "Assign", "AssignFromVar", "IndexAssign", "OpAssign", "FieldAssign", "TupleElemAssign", "Eval", "Destructure", "DestructureTooMany", "DestructureVar", "OpAssignVar"}
+  ActKinds = {"Define", "DefineFromVar", "Assign", "AssignFromVar", "IndexAssign", "OpAssign", "FieldAssign", "TupleElemAssign", "Eval", "Destructure", "DestructureTooMany", "DestructureVar", "OpAssignVar", "FailingCall"}
   MaxScalar = 9
 INVARIANT EmitState
 CHECK_DEADLOCK FALSE
